@@ -475,6 +475,14 @@ def guards():
     g("max where= initial=", lambda ns, x: ns.max(x, where=msk, initial=-9.0), (2, 3))
     g("min where= initial= fwd", lambda ns, x: ns.min(x, axis=0, where=msk, initial=9.0), (2, 3), "fwd")
     g("sum method where=", lambda ns, x: (x * 1.0).sum(where=msk), (2, 3))
+    # NumPy 2 spellings of functions autograd supports under their older names (the same function objects in NumPy)
+    g("concat alias", lambda ns, x: ns.concat((x, 2.0 * x)), (3,))
+    g("concat alias fwd", lambda ns, x: ns.concat([x * x, x], axis=0), (3,), "fwd")
+    g("permute_dims alias", lambda ns, x: ns.permute_dims(x, (1, 0)), (2, 3))
+    g("pow alias", lambda ns, x: ns.pow(x, 2.0), (3,))
+    g("acos alias", lambda ns, x: ns.acos(x * 0.3), (3,))
+    g("atan2 alias", lambda ns, x: ns.atan2(x, 1.5), (3,))
+    g("matrix_transpose", lambda ns, x: ns.matrix_transpose(x), (2, 3))
     g("hfft", lambda ns, x: ns.fft.hfft(x), (4,))
     g("fftfreq-scaled", lambda ns, x: ns.fft.fftshift(x * ns.fft.fftfreq(4)), (4,))
     return G
@@ -523,6 +531,23 @@ def guard_body(c):
                 res = autograd.make_jvp(lambda x: F(x, AG))(xx)(vv)[1]
     except Exception as e:
         return ok(nontrivial=True, key=name + mode, labels=["guard", "raised"], sample=sample)
+    # aliases of supported functions: the function's own result, handed back by the operator without further operations, is a plain array
+    # like under the supported name - not an object array of tracers (whose derivative as a RESULT is silently zero although it still
+    # works as an intermediate).  (Sequence-taking functions autograd has no sequence-aware wrapper for are outside the properties.)
+    try:
+        if "alias" not in name:
+            raise LookupError
+        with warnings.catch_warnings():
+            warnings.simplefilter("ignore")
+            y_direct = autograd.make_vjp(lambda x: fn(AG, x))(xx)[1] if mode == "rev" else autograd.make_jvp(lambda x: fn(AG, x))(xx)(vv)[0]
+        leaked = False
+        for leaf in (y_direct if isinstance(y_direct, (tuple, list)) else [y_direct]):
+            la = onp.asarray(leaf)
+            leaked = leaked or la.dtype == object
+        if leaked:
+            return fail("tracer_leak", f"{name} ({mode}): the function's result comes back as an object array of tracers", f"C15|guard|{name}|{mode}|leak", sample=sample)
+    except Exception:
+        pass
     ra = onp.asarray(res)
     if ra.dtype == object or ra.shape != (tuple(shape) if mode == "rev" else ()):
         return fail("wrong_shape", f"{name} ({mode}): derivative of shape {ra.shape} for argument shape {tuple(shape)} - neither raised nor correct",
